@@ -30,7 +30,7 @@ PLAN = {
     "thorough": {"shards": 8, "shard_timeout": 3600, "case_timeout": 90, "seq": 600000, "runs": 60000, "par": 6000, "max_case_timeouts": 10},
 }
 THRESHOLDS = {
-    "quick": {"factory_made_abc_grammars_evaluated_in_parallel": 3, "individuals_checked": 5000, "sequential_calls": 600, "multi_objective_calls": 200, "representations": 300, "shared_problem_cases": 100, "runs": 70, "parallel_calls": 40, "parallel_individuals": 150, "set:completion_orders": 5, "parallel_with_evaluated_members": 10, "parallel_batches_with_duplicates": 8, "runs_with_selection_after_variation": 30, "multi_returns:reused-list": 50, "multi_returns:tuple": 50, "parallel_batches_of_never_mapped_individuals": 10, "parallel_never_mapped:dsge": 3, "problem_churn_cases": 25, "main_script_children": 6, "rounds_on_a_reused_problem_address": 20},
+    "quick": {"evaluators_shared_by_successive_trackers": 300, "factory_made_abc_grammars_evaluated_in_parallel": 3, "nested_class_grammars_evaluated_in_parallel": 3, "individuals_checked": 5000, "sequential_calls": 600, "multi_objective_calls": 200, "representations": 300, "shared_problem_cases": 100, "runs": 70, "parallel_calls": 40, "parallel_individuals": 150, "set:completion_orders": 5, "parallel_with_evaluated_members": 10, "parallel_batches_with_duplicates": 8, "runs_with_selection_after_variation": 30, "multi_returns:reused-list": 50, "multi_returns:tuple": 50, "parallel_batches_of_never_mapped_individuals": 10, "parallel_never_mapped:dsge": 3, "problem_churn_cases": 25, "main_script_children": 6, "rounds_on_a_reused_problem_address": 20},
     "thorough": {"individuals_checked": 120000, "parallel_calls": 600, "set:completion_orders": 40},
 }
 
@@ -253,6 +253,18 @@ def run_main_script(case, rec):
             rec.violation("parallel-evaluate:raises:classes-made-by-a-factory", dict(wit, error=par))
         elif par != seq:
             rec.violation("parallel-differs-from-sequential:classes-made-by-a-factory", dict(wit, parallel=par, sequential=seq))
+    par, seq = out.get("nested", (None, None))
+    if seq is not None:
+        # classes that are attributes of another class of the script (Lang.Lit), asked isinstance / type() by the script's
+        # fitness function inside the workers
+        rec.count("nested_class_grammars_evaluated_in_parallel")
+        rec.count("individuals_checked", len(seq))
+        if isinstance(par, str):
+            rec.violation("parallel-evaluate:raises:classes-nested-in-a-class", dict(wit, error=par))
+        elif par != seq:
+            rec.violation("parallel-differs-from-sequential:classes-nested-in-a-class", dict(wit, parallel=par, sequential=seq))
+        elif any(v <= -1000.0 for v in seq):
+            rec.note_inconclusive("nested-class fixture: the sequential reference itself met a foreign class")
     rec.distinct_add(["main-script", case["seed"], out["first"][1], out["second"][1]])
 
 
@@ -314,6 +326,34 @@ def run_seq(case, rec):
         rec.violation("fitness-computed-more-or-less-than-once:sequential", dict(wit, invocations=len(log), new_individuals=len(new)))
     for ind in pop:
         check_individual(case, mins, ind, prob, rec, wit, "sequential")
+    # one evaluator serving several trackers one after the other (a second search on the same worker pool, co-evolution):
+    # the evaluator's counter stays the number of fitness-function invocations made through it, and a tracker built on an
+    # evaluator that has already served counts the evaluations made since it was built
+    from geneticengine.evaluation.tracker import MultiObjectiveProgressTracker, SingleObjectiveProgressTracker
+
+    tracker_cls = MultiObjectiveProgressTracker if case["multi"] else SingleObjectiveProgressTracker
+    ev0, l0 = ev.number_of_evaluations(), len(read_log())
+    try:
+        tr_a = tracker_cls(prob, ev)
+        batch_a = evo.individuals(rep, src, 1 + case["seed"] % 3)
+        tr_a.evaluate(batch_a)
+        la = len(read_log())
+        tr_b = tracker_cls(prob, ev)
+        batch_b = evo.individuals(rep, src, 1 + (case["seed"] // 3) % 3)
+        tr_b.evaluate(batch_b)
+        counted_b, counted_ev = tr_b.get_number_evaluations(), ev.number_of_evaluations() - ev0
+    except core.CaseTimeout:
+        raise
+    except BaseException as e:  # noqa
+        rec.violation(f"evaluate:raises:{type(e).__name__}@{core.exc_site(e)}", dict(wit, error=core.short(e), where="trackers sharing an evaluator"))
+        return
+    inv_total, inv_b = len(read_log()) - l0, len(read_log()) - la
+    rec.count("evaluators_shared_by_successive_trackers")
+    rec.count("evaluations", inv_total)
+    if counted_ev != inv_total:
+        rec.violation(f"evaluation-counter-differs-from-invocations:{'multi' if case['multi'] else 'single'}:evaluator-shared-by-successive-trackers", dict(wit, invocations=inv_total, counter=counted_ev, first_tracker=len(batch_a), second_tracker=len(batch_b)))
+    if counted_b != inv_b:
+        rec.violation(f"tracker-count-differs-from-its-own-evaluations:{'multi' if case['multi'] else 'single'}:built-on-an-evaluator-that-has-served", dict(wit, invocations_since_built=inv_b, tracker_says=counted_b))
     if case["second"]:
         rec.count("shared_problem_cases")
         c2 = dict(case, multi=not case["multi"])
